@@ -150,18 +150,19 @@ def run(ctx):
                 ctx.violation(f'preallocated-{i}.json', dict(argv=argv, stream=ups[:60], result=result), f'C12: destination incomplete (disk.img differs: data written into preallocated space is missing) but no error update and copy() returned Ok (parblock, {updater})')
         # ---- every worker dies on a failing entry while hundreds of entries are still to be walked: copy() returns, the stream ends
         for i in range(4 if ctx.quick else 16):
-            shutil.rmtree(root + '/S', ignore_errors=True); shutil.rmtree(root + '/D', ignore_errors=True)
-            os.makedirs(root + '/S/a'); os.makedirs(root + '/S/z')
+            for sub in ('S', 'D', 'a', 'z'):
+                shutil.rmtree(f'{root}/{sub}', ignore_errors=True)
+            os.makedirs(root + '/a'); os.makedirs(root + '/z')          # two operands, so that the failing entries are walked FIRST
             for k in range(40):
                 if i % 2:
-                    os.mkfifo(f'{root}/S/a/p{k}')
+                    os.mkfifo(f'{root}/a/p{k}')
                 else:
-                    open(f'{root}/S/a/p{k}', 'wb').write(b'lock')
-                os.makedirs(f'{root}/D/S/a/p{k}/occupied')          # the destination name is a non-empty directory
+                    open(f'{root}/a/p{k}', 'wb').write(b'lock')
+                os.makedirs(f'{root}/D/a/p{k}/occupied')          # the destination name is a non-empty directory
             for k in range(1000):
-                open(f'{root}/S/z/f{k}', 'wb').write(b'')
+                open(f'{root}/z/f{k}', 'wb').write(b'')
             driver = ['parfile', 'parblock'][(i // 2) % 2]; updater = ['channel', 'record', 'noop', 'channel'][i % 4]
-            argv = ['--driver', driver, '--workers', '4', '--block-size', '4096', '--updater', updater, '--', 'S', 'D']
+            argv = ['--driver', driver, '--workers', '4', '--block-size', '4096', '--updater', updater, '--', 'a', 'z', 'D']
             r = scen.run_xcp(root, argv, timeout=60, binary=probe)
             ups, result, closed = parse_stream(r.stdout_full if hasattr(r, 'stdout_full') else r.stdout)
             ctx.count(f'all_workers_fail.{driver}.{r.cls}.{result}'); ctx.case(('all-workers-fail', i, driver, updater), True)
